@@ -19,6 +19,8 @@ const modPath = "github.com/openacid/low"
 type Config struct {
 	Tags   string // "" or "debug"
 	GOARCH string // "" = host (amd64)
+
+	inlineCap int // internal: >0 caps the inlining level below this value (fallback after a failed re-check)
 }
 
 func (c Config) String() string {
@@ -64,6 +66,17 @@ func (w *World) PureFunc(f *ssa.Function) bool {
 		}
 	}
 	return w.pure[f]
+}
+
+// inlineLevel: 2 = expression and statement helpers (default), 1 = single-expression helpers only, 0 = none.
+func inlineLevel() int {
+	switch os.Getenv("LOWCHECK_NOINLINE") {
+	case "":
+		return 2
+	case "stmt":
+		return 1
+	}
+	return 0
 }
 
 func repoDir() string {
@@ -115,9 +128,20 @@ func Load(dir string, cfg Config, patterns ...string) (*World, error) {
 		return nil, fmt.Errorf("load/type errors in %s (%s):\n  %s", dir, cfg, strings.Join(errs, "\n  "))
 	}
 	nInlined := 0
-	if os.Getenv("LOWCHECK_NOINLINE") == "" {
-		nInlined = inlineTrivialHelpers(pkgs, inModuleFunc(pkgs))
-		dbgTime(fmt.Sprintf("inlined %d helper calls", nInlined))
+	level := inlineLevel()
+	if cfg.inlineCap > 0 && level >= cfg.inlineCap {
+		level = cfg.inlineCap - 1
+	}
+	if level > 0 {
+		n, ok := inlineTrivialHelpers(pkgs, inModuleFunc(pkgs), level)
+		if !ok {
+			// the rewritten syntax could not be re-checked: reload and inline one level less
+			c2 := cfg
+			c2.inlineCap = level
+			return Load(dir, c2, patterns...)
+		}
+		nInlined = n
+		dbgTime(fmt.Sprintf("inlined %d helper calls (level %d)", nInlined, level))
 	}
 	prog, spkgs := ssautil.AllPackages(pkgs, ssa.InstantiateGenerics)
 	w := &World{Cfg: cfg, Dir: dir, Fset: prog.Fset, Pkgs: pkgs, Prog: prog, SSA: map[string]*ssa.Package{}, NInlined: nInlined}
@@ -182,6 +206,11 @@ func (w *World) InModule(fn *ssa.Function) bool {
 	}
 	m := w.modPath()
 	return p.Path() == m || strings.HasPrefix(p.Path(), m+"/")
+}
+
+func (w *World) InModulePkg(path string) bool {
+	m := w.modPath()
+	return path == m || strings.HasPrefix(path, m+"/")
 }
 
 // Short returns the package path relative to the module ("bitmap").
